@@ -102,6 +102,43 @@ def concrete_overflow(inp):
     return {"ok": not bad, "detail": "; ".join(bad[:2]), "inputs": inp}
 
 
+def concrete_deep_cooling(inp):
+    """self-cooling runs whose first step takes away 90 % .. 99.9 % of the absolute feed temperature (permeances underflow, 0/0 fractions):
+    the call must raise or return admissible, finite states"""
+    import warnings
+    kind, mode = inp["kind"], inp.get("mode")
+    bad, runs, returned = [], 0, 0
+    light = bool(inp.get("light"))
+    for f in realrun.proc_fallback(mode, None)[:1 if light else 2]:
+        for x0, m0, A in ((0.9, 1.5, 0.5), (0.3, 1.0, 1.0))[:1 if light else 2]:
+            base = dict(f, kind=kind, mode=mode, basis="weight", program=None, x0=x0, m0=m0, A=A, n_curves=2, initial_permeances=False)
+            try:
+                with warnings.catch_warnings():
+                    warnings.simplefilter("ignore")
+                    probe, _, _ = realrun.process(dict(base, N=2, dt=1e-6))
+                rate = (float(probe.feed_temperature[0]) - float(probe.feed_temperature[1])) / 1e-6  # K per hour at the initial state
+            except Exception:
+                continue
+            if not rate > 0:
+                continue
+            for frac in ((0.87, 0.98, 0.99, 0.995, 0.9975) if light else (0.8625, 0.87, 0.875, 0.9, 0.95, 0.97, 0.98, 0.99, 0.9925, 0.995, 0.9975, 0.999)):
+                for N in ((2, 3) if light else (2, 3, 4)):
+                    i = dict(base, N=N, dt=frac * f["T0"] / rate)
+                    runs += 1
+                    try:
+                        with warnings.catch_warnings():
+                            warnings.simplefilter("ignore")
+                            m, _, _ = realrun.process(i)
+                    except (ValueError, ZeroDivisionError, OverflowError, FloatingPointError):
+                        continue
+                    returned += 1
+                    b = _check_model(m, i)
+                    if b:
+                        bad.append("%s %s x0=%r: first step cools the feed by %.2f %% of T0 (dt=%.6g h, N=%d): returned a trajectory with %s"
+                                   % (kind, f["mixture"], x0, 100 * frac, i["dt"], N, "; ".join(b[:2])))
+    return {"ok": not bad, "detail": "; ".join(bad[:2]) or "%d runs, %d returned" % (runs, returned), "inputs": inp}
+
+
 def admissible(job, kind, mode, tier):
     Ns = N_TIER[tier]
     job.bound(process_steps_N=list(Ns))
@@ -142,6 +179,8 @@ def admissible(job, kind, mode, tier):
     if not iso:
         # labelled concrete points: float overflow (inf / nan) has no counterpart in real arithmetic
         job.refute_concretely("C18/%s/%s/overflowing_programme_raises" % (proc.SHORT[kind], mode), "vf.props.C18:concrete_overflow", {"kind": kind, "mode": mode})
+        job.refute_concretely("C18/%s/%s/deep_cooling_raises_or_stays_finite" % (proc.SHORT[kind], mode), "vf.props.C18:concrete_deep_cooling",
+                              {"kind": kind, "mode": mode, "light": (not ideal) and tier == "quick"})
 
 
 JOB_TIMEOUT = {"quick": 500, "thorough": 3000}
